@@ -275,6 +275,9 @@ func (s *PfcpServer) sendReqTo(msg message.Message, addr net.Addr) error {
 		return errors.Errorf("sendReqTo: invalid req type(%d)", msg.MessageType())
 	}
 
+	// PFCP sequence numbers are 24 bits wide: keep the counter, which is also
+	// part of the transaction key, within the range that appears on the wire
+	s.txSeq &= 0xffffff
 	txtr := NewTxTransaction(s, addr, s.txSeq)
 	s.txSeq++
 	s.txTrans[txtr.id] = txtr
